@@ -270,6 +270,8 @@ class Tr:
             if self.peek() == "mut": self.eat()
             name = self.eat(); b = self.lookup(name)
             if b is None or b[0] != "arr": raise Unsupported("tail &%s" % name)
+            if self.peek() == "}":
+                return ("arr", b[1])
             self.eat("["); lo, tl = self.expr(); self.eat(".."); hi, th = self.expr(); self.eat("]")
             return ("slice", b[1], lo, hi)
         if re.fullmatch(r"[A-Za-z_]\w*", t or ""):
@@ -290,6 +292,11 @@ class Tr:
                 e, te = self.typed("u8"); self.eat(";")
                 if te not in (None, "u8"): raise Unsupported("storing a %s into a byte array" % te)
                 return "Stmt.store %d (%s) (%s)" % (b[1], lo, e)
+            if b is not None and b[0] == "var" and self.peek(1) not in ("=", "+=", "-=", "*=", "/=", "%="):
+                e, te = self.expr()
+                if self.peek() != "}": raise Unsupported("expression statement")
+                if isinstance(te, tuple): raise Unsupported(".into() in the returned value")
+                return ("val", e, te)
             if b is not None and b[0] == "var":
                 self.eat(); op = self.eat()
                 e, te = self.typed(b[2]); self.eat(";")
@@ -314,6 +321,31 @@ class Tr:
             return a, ta
         return self.cast()
 
+def fold_self(toks):
+    """`self . name` -> one token `self_name` (the fields of `&self` are parameters of the translated function)"""
+    out, i = [], 0
+    while i < len(toks):
+        if toks[i] == "self" and i + 2 < len(toks) and toks[i + 1] == "." and re.fullmatch(r"[A-Za-z_]\w*", toks[i + 2]) and (i + 3 >= len(toks) or toks[i + 3] != "("):
+            out.append("self_" + toks[i + 2]); i += 3
+        else:
+            out.append(toks[i]); i += 1
+    return out
+
+def struct_fields(text, sname):
+    m = re.search(r"struct\s+%s\s*\{(.*?)\}" % re.escape(sname), text, re.S)
+    if not m: raise Unsupported("struct %s not found" % sname)
+    out = []
+    for part in m.group(1).split(","):
+        part = part.strip()
+        if not part: continue
+        mm = re.fullmatch(r"(?:pub(?:\([^)]*\))?\s+)?(\w+)\s*:\s*(.+)", part, re.S)
+        if not mm: raise Unsupported("field " + part)
+        ty = re.sub(r"\s+", " ", mm.group(2).strip())
+        if ty in WIDTH: out.append(("self_" + mm.group(1), ty))
+        elif ty in ("Vec<u8>",) or re.fullmatch(r"\[u8; .+\]", ty): out.append(("self_" + mm.group(1), "arr"))
+        else: raise Unsupported("field type " + ty)
+    return out
+
 def params_of(sig):
     """[(name, type)] of a function signature's parameter list: unsigned scalars and `&mut [u8; N]` / `&[u8]` arrays"""
     out = []
@@ -327,6 +359,7 @@ def params_of(sig):
             cur += ch
     if cur.strip(): parts.append(cur)
     for p in parts:
+        if re.fullmatch(r"\s*&\s*(mut\s+)?self\s*", p): continue
         m = re.fullmatch(r"\s*(?:mut\s+)?(\w+)\s*:\s*(.+?)\s*", p, re.S)
         if not m: raise Unsupported("parameter " + p.strip())
         name, ty = m.group(1), re.sub(r"\s+", " ", m.group(2))
@@ -335,8 +368,8 @@ def params_of(sig):
         else: raise Unsupported("parameter type " + ty)
     return out
 
-def translate_fn(repo, rel, fname, const_names):
-    """-> (body term, result term)"""
+def translate_fn(repo, rel, fname, const_names, self_struct=None, scalar=False):
+    """-> (body term, result term); self_struct: the struct whose fields `self.x` refers to; scalar: the function returns a number"""
     bad = lambda why: ("Stmt.unsupported %s" % lean_str(why), "Result.arr 0")
     try:
         text = gc.load(repo, rel)
@@ -348,6 +381,8 @@ def translate_fn(repo, rel, fname, const_names):
         return bad("signature of %s not found" % fname)
     try:
         params = params_of(m.group(1))
+        if self_struct:
+            params += struct_fields(text, self_struct)
         consts = {}
         c = gc.Consts()
         for n in const_names:
@@ -355,7 +390,7 @@ def translate_fn(repo, rel, fname, const_names):
             if mm and mm.group(1) in WIDTH:
                 try: consts[n] = (c.scalar(text, n, rel), mm.group(1))
                 except gc.Missing: pass
-        tr = Tr(tokens(body), consts, params)
+        tr = Tr(fold_self(tokens(body)), consts, params)
         # untyped `let mut i = 0;` that is used as an index or a slice bound is a usize
         for mm in re.finditer(r"let\s+(?:mut\s+)?(\w+)\s*=\s*\d+\s*;", body):
             if re.search(r"\[\s*(?:\d+\s*\.\.\s*)?%s\s*\]" % mm.group(1), body):
@@ -365,6 +400,10 @@ def translate_fn(repo, rel, fname, const_names):
             raise Unsupported("text after the function body")
         if tail is None:
             raise Unsupported("no tail expression")
+        if scalar:
+            if tail[0] != "val": raise Unsupported("the returned value is not a number")
+            return tr.seq(stmts), tail[1]
+        if tail[0] == "val": raise Unsupported("the returned value is not an array")
         res = "Result.arr %d" % tail[1] if tail[0] == "arr" else "Result.slice %d (%s) (%s)" % (tail[1], tail[2], tail[3])
         return tr.seq(stmts), res
     except Unsupported as ex:
@@ -381,6 +420,11 @@ def main(repo, outp):
     for name, rel, fn, cn in FUNCS:
         body, res = translate_fn(repo, rel, fn, cn)
         L.append("/-- `%s` in %s, translated from the working tree -/\ndef %s : Fn := ⟨%s,\n  %s⟩" % (fn, rel, name, body, res))
+    body, res = translate_fn(repo, "src/matrix_card.rs", "get_number_at_coordinates", [], self_struct="MatrixCard")
+    L.append("/-- `MatrixCard::get_number_at_coordinates` in src/matrix_card.rs (scalar slots: x, y, then the struct's integer fields in declaration order; array slot 0: data) -/\ndef getNumberAtCoordinates : Fn := ⟨%s,\n  %s⟩" % (body, res))
+    body, res = translate_fn(repo, "src/matrix_card.rs", "get_matrix_card_size", [], scalar=True)
+    if res.startswith("Result."): res = "Expr.unsupported \"no scalar result\""
+    L.append("/-- `MatrixCard::get_matrix_card_size` in src/matrix_card.rs -/\ndef getMatrixCardSize : FnNat := ⟨%s,\n  %s⟩" % (body, res))
     text = ("/- GENERATED by tools/gen_imp.py from the Rust sources on every run. Do not edit. -/\nimport WowSrp.Model.MiniImp\n"
             "namespace WowSrp.Gen.CodeImp\nopen WowSrp.MiniImp\n\n" + "\n\n".join(L) + "\n\nend WowSrp.Gen.CodeImp\n")
     old = open(outp).read() if os.path.exists(outp) else None
